@@ -46,6 +46,10 @@ def run_af(ctx, exe, jobs, tag, nproc=8):
                 r = json.loads(line)
                 res[r["id"]] = r["res"]
         os.remove(inp); os.remove(outp)
+    if FAULT:
+        for n, jid in enumerate(sorted(res)):
+            if n % 7 == 3 and res[jid]:
+                res[jid][-1]["shared"]["a"]["s"] = (res[jid][-1]["shared"]["a"]["s"] or 0) + 1
     return res
 
 
